@@ -17,7 +17,11 @@ PROP = {'engine': 'c18',
          'every event the pool is read and compared with the fork the node is on. distinct = distinct (monitor, kind, size buckets, op-kind counts / '
          'height sequence); non-trivial = has accepted adds, deletes and selections (seq), overlapping calls and a selection (conc), at least one fork '
          'switch (fork)',
- 'assumptions': ['"accepted" = AddTx returned nil / counted by AddTxs (when AddTxs takes only part of a list the members become "may be pending"); rejections are never judged',
+ 'assumptions': ['a violation class names the clause that failed plus, where the monitor can observe it, the mechanism: ":orphaned-by-box-delete" = a shadow copy of '
+                 'the pool\'s slice/index bookkeeping (never used for the verdict) says that a pending entry had lost its index entry before the violation '
+                 '(sequential monitor), or the history contains a call that deletes a box (concurrent monitor, which has no sequential order to be more precise); '
+                 'at most two witnesses per class and process are emitted, every violation is counted in the "violations <class>" counters',
+                 '"accepted" = AddTx returned nil / counted by AddTxs (when AddTxs takes only part of a list the members become "may be pending"); rejections are never judged',
                  'DelTxs(box) also tells the pool to delete the box\'s sub txs (a box in a block executes them; TxGuard records them as appeared on the fork)',
                  'DelTxs(sub tx) makes every box that contains it "may be pending": the pool may drop it (it can no longer be executed) or keep it',
                  'a box counts as expired when it or one of its sub txs is expired; entries expired at a query time may be dropped for good by that query',
@@ -26,6 +30,6 @@ PROP = {'engine': 'c18',
                  'background goroutines are property C19)',
                  'porcupine time-outs are counted (porcupine_inconclusive_timeout) and never decide'],
  'min_cases': {'quick': 3000, 'thorough': 60000},
- 'min_stats': {'quick': {'conc_overlapping_call_pairs': 2000, 'fork_switches': 20, 'seq_cases_crossing_capacity_128': 20, 'seq_gc_resets': 100, 'porcupine_ok': 1000},
-               'thorough': {'conc_overlapping_call_pairs': 40000, 'fork_switches': 400, 'seq_cases_crossing_capacity_128': 400, 'seq_gc_resets': 2000, 'porcupine_ok': 20000}},
+ 'min_stats': {'quick': {'conc_overlapping_call_pairs': 2000, 'fork_switches': 15, 'seq_cases_crossing_capacity_128': 20, 'seq_gc_resets': 100, 'porcupine_ok': 1000},
+               'thorough': {'conc_overlapping_call_pairs': 40000, 'fork_switches': 300, 'seq_cases_crossing_capacity_128': 400, 'seq_gc_resets': 2000, 'porcupine_ok': 20000}},
  'timeout_s': {'quick': 900, 'thorough': 7200}}
